@@ -42,6 +42,11 @@ def expr_kind(repo, cg, fn, e, key_var=None):
             return 'from-input'
     if isinstance(e, ast.JoinedStr):
         return 'string'
+    if isinstance(e, ast.Name):
+        # a local built up in place: its kind is the kind of its (single-kind) initialisations
+        kinds = {expr_kind(repo, cg, fn, v, key_var) for v, k, s in local_defs(fn).get(e.id, []) if k == 'assign'}
+        if len(kinds) == 1:
+            return kinds.pop()
     return None
 
 
